@@ -82,6 +82,12 @@ theorem C18_layers_step_reject_unchanged {s s' : State} {op : Op} {e : Err}
   | gridSet n => simp only [step] at h; unfold gridSet at h; reject_branches
   | select ms oe conds exts save => simp only [step] at h; reject_branches
 
+/-- the legacy re-binding `layer.data = <held array>` (a transition outside the op language): refused ⇒ unchanged -/
+theorem C18_layers_rebind_reject_unchanged {s s' : State} {l h : Nat} {e : Err}
+    (h : rebind s l h = (s', .err e)) : s' = s := by
+  unfold rebind at h
+  reject_branches
+
 def Out.isErr : Out → Bool
   | .err _ => true
   | _ => false
